@@ -451,21 +451,20 @@ def step_harnesses(tier, seed, pid):
         G = (2, 1, 3, 2)
         one = lambda preset, dims=D, h=False, xr=False, ns='one', fault=None: dims + (preset, h, xr, ns, fault)
         THOROUGH = {
-            'C02': [one('default'), one('default', ns=2), one('noise', ns=2), one('soft-restarts'), one('hard-restarts'), one('growing', G),
-                    one('regression-geom'), one('soft-restarts-increase-npt')],
-            'C03': [one('default'), one('soft-restarts'), one('soft-restarts-2geom'), one('hard-restarts'), one('regression-momentum'),
-                    one('growing', G), one('default', h=True), one('default', ns=2), one('default', (1, 1, 3, 3)), one('soft-restarts-increase-npt')],
-            'C04': [one('default'), one('soft-restarts'), one('soft-restarts-2geom'), one('regression-geom'), one('regression-momentum'),
-                    one('growing', G), one('growing-perturb', G), one('default', h=True), one('default', (1, 1, 3, 3)), one('noise')],
-            'C10': [one('default'), one('soft-restarts'), one('soft-restarts-autodetect'), one('noise'), one('hard-restarts'),
-                    one('default', xr=True), one('growing-safety-geom', G)],
+            # sized by wall time (each entry is one STEP exploration of up to ~7 min on 16 cores)
+            'C02': [one('default'), one('default', ns=2), one('soft-restarts'), one('hard-restarts'), one('growing', G), one('noise', ns=2)],
+            'C03': [one('default'), one('soft-restarts'), one('soft-restarts-2geom'), one('regression-momentum'), one('growing', G),
+                    one('default', h=True), one('default', ns=2)],
+            'C04': [one('default'), one('soft-restarts'), one('soft-restarts-2geom'), one('regression-geom'), one('growing-perturb', G),
+                    one('default', h=True), one('default', (1, 1, 3, 3))],
+            'C10': [one('default'), one('soft-restarts'), one('soft-restarts-autodetect'), one('noise'), one('hard-restarts'), one('default', xr=True)],
             'C18': [one('default'), one('diagnostics'), one('soft-restarts'), one('growing-reduce-delta', G), one('growing-safety-geom', G),
-                    one('noise'), one('default', h=True), one('soft-restarts-increase-npt')],
+                    one('default', h=True)],
             'C01': [one('default'), one('growing', G), one('regression-momentum'), one('soft-restarts'), one('default', (2, 1, 3, 3))],
-            'C19': [one('default'), one('regression-geom'), one('growing-perturb', G), one('regression-momentum'), one('soft-restarts-increase-npt'), one('growing', G)],
+            'C19': [one('default'), one('regression-geom'), one('growing-perturb', G), one('regression-momentum'), one('growing', G)],
             'C11': [one('default'), one('soft-restarts'), one('hard-restarts')],
-            'C08': [one('default', xr=True), one('default', fault='raise'), one('default', fault='raise1'), one('soft-restarts', fault='raise'), one('soft-restarts', xr=True), one('noise', xr=True),
-                    one('default', xr=True, ns=2), one('default', h=True, xr=True)],
+            'C08': [one('default', xr=True), one('default', fault='raise'), one('default', fault='raise1'), one('soft-restarts', fault='raise'),
+                    one('soft-restarts', xr=True), one('noise', xr=True), one('default', h=True, xr=True)],
         }
         combos = THOROUGH.get(pid, [one('default'), one('soft-restarts')])
     if pid == 'C09':
@@ -483,7 +482,7 @@ def step_harnesses(tier, seed, pid):
                               n, m, npt_so_far, num_pts, preset, nsm),
                           assumptions=["INV: " + s for s in INV] + ["stub: " + s for s in STUBS],
                           expect=[], nproc=None, home='STEP', max_replays=3,
-                          wall_budget=(600 if tier == 'quick' else 900)))
+                          wall_budget=(600 if tier == 'quick' else 500)))
     return hs
 
 
